@@ -48,6 +48,16 @@ def run_c12(ctx):
         "compile_probe": compile_probe,
         "exhaustive": False,
     })
+    # strict/partial mocks with real functions: an exhausted single-use value must still refuse (Spec-M histories)
+    from . import engine_a
+    workers, dviols, dsummary, _ = engine_a._run_config(ctx, "std", 200_000 if ctx.tier == "quick" else 4_000_000)
+    dstats = engine_a._merge(w["stats"] for w in workers)
+    for v in dviols:
+        ctx.violation(f"dynmock:std:{'+'.join(v['tags'])}:{v['at'].split(' ')[0]}", dict(v))
+    ctx.require(dstats.get("mockpanic_CannotReturnTwice", 0) > 0, "dynmock stage saw no refused second request")
+    ctx.coverage["dynmock_stage"] = {"cases": sum(w["cases"] for w in workers),
+                                     "refused_second_requests": dstats.get("mockpanic_CannotReturnTwice", 0)}
+    ctx.coverage["evaluations"] += sum(w["cases"] for w in workers)
     ctx.assumptions += [
         "drop/clone registry in engines/harness/src/toks.rs is keyed by value id and updated at the boundary",
         "interleavings at the granularity of the H3 yield points; real preemption only in the stress stage",
@@ -67,6 +77,12 @@ def run_c13(ctx):
     engine_c.report(ctx, v2, "C13", "controlled schedules")
     st, v3 = engine_c.run_sched(ctx, "c13-threads-stress", b["c13_stress"])
     engine_c.report(ctx, v3, "C13", "real-thread stress")
+    ser, v5 = engine_c.run_sched(ctx, "c13-series", b["c13_threads"] // 2)
+    engine_c.report(ctx, v5, "C13", "then()-series of borrowed returns, controlled schedules")
+    sers, v6 = engine_c.run_sched(ctx, "c13-series-stress", b["c13_stress"])
+    engine_c.report(ctx, v6, "C13", "then()-series of borrowed returns, stress")
+    ctx.require(ser["stats"].get("series_calls", 0) > 0 and sers["stats"].get("series_calls", 0) > 0,
+                "the borrowed-return series workload made no calls")
     # a stack overflow would kill the worker: that is a violation, not an inconclusive run
     n_inconclusive = len(ctx.inconclusive)
     try:
@@ -85,7 +101,10 @@ def run_c13(ctx):
     ctx.require(any("value_chain.rs" in x for x in thr["sites"]),
                 "the value chain's insertion site was never reached under the scheduler")
     ctx.coverage.update({
-        "evaluations": seq["executions"] + thr["executions"] + st["executions"] + 1,
+        "evaluations": seq["executions"] + thr["executions"] + st["executions"] + ser["executions"] + sers["executions"] + 1,
+        "borrowed_return_series": {"controlled_executions": ser["executions"], "stress_executions": sers["executions"],
+                                   "calls": ser["stats"].get("series_calls", 0) + sers["stats"].get("series_calls", 0),
+                                   "distinct_schedules": ser["distinct_schedules"]},
         "distinct_nontrivial": seq["distinct_cases"] + thr["distinct_schedules"] + st["distinct_cases"],
         "rule": "sequential: random phases of make_ref (3 value types) / borrowed returns (returns(), Option, str, "
                 "via the delegation helper) / make_mut / l_mut / a non-lending &mut provided method on an original and "
